@@ -197,6 +197,8 @@ func ruleC14(c *Check) {
 		}
 	}
 	c.req(n >= 3, "C14.2", "commit-paths", token.NoPos, fmt.Sprintf("%d committed paths persist a possibly available binding after a relevant change", n))
+	// the stored price terms are those of the published pricing text (otherwise the minimum is computed for another price)
+	c.pricingTextPairs("C14.2")
 	// C14.3 slash auto-disable
 	gBinding := c.getterByType("ServiceBinding")
 	for _, s := range c.slashFuncs() {
